@@ -37,7 +37,7 @@ M = [
     ('C03', 'log-name-keeps-terminator', 'cflib/crazyflie/log.py', "self.name = naming[naming.find(zt) + 1:-1].decode('ISO-8859-1')", "self.name = naming[naming.find(zt) + 1:].decode('ISO-8859-1')"),
     # C04
     ('C04', 'uint16-packed-signed', 'cflib/crazyflie/param.py', "0x09: ('uint16_t', '<H'),", "0x09: ('uint16_t', '<h'),"),
-    ('C04', 'release-on-any-read-reply', 'cflib/crazyflie/param.py', "            if (pk.channel != TOC_CHANNEL and self._lock_pattern == release_pattern and\n                    pk is not None):", "            if (pk.channel != TOC_CHANNEL and\n                    pk is not None):"),
+    ('C04', 'release-on-any-read-reply', 'cflib/crazyflie/param.py', "            if (pk.channel == self._lock_channel and self._lock_pattern == release_pattern and\n                    pk is not None):", "            if (pk.channel != TOC_CHANNEL and\n                    pk is not None):"),
     ('C04', 'no-status-strip', 'cflib/crazyflie/param.py', "                if pk.channel == READ_CHANNEL:\n                    pk.data = pk.data[:2] + pk.data[3:]", "                if pk.channel == READ_CHANNEL:\n                    pk.data = pk.data"),
     ('C04', 'ro-not-refused', 'cflib/crazyflie/param.py', "        elif element.access == ParamTocElement.RO_ACCESS:", "        elif element.access == 7:"),
     # C05
